@@ -20,9 +20,9 @@ CLAIMS = {
           "Coq proof of the acceptance mechanism + bit-exact correspondence + accuracy experiment", "3/C01", True),
  "C02": C("Order conditions of every rooted tree up to p (and failure at p+1), embedded-estimator orders and row sums are Coq theorems over the tableaux regenerated from the Rust constants on every run, universally quantified over trees via a proved-complete enumeration: RK4 (4), RK23 (3, estimator 2->q=3), DOPRI5 (5, estimator 4->q=5), exact and as rounded to binary64; DOP853 (8; estimators of order 5 and 3; not 9) with the 30-digit decimals handled as scaled integers over the tableau's common denominator (every residual is M/D^|t| with |M| bounded by the certificate: <= gamma*1e-25, <= gamma*1e-13 for the binary64 values); Radau (5, not 6) for the effective matrix Aeff = T Lambda^-1 TI computed from the code's T, TI, U1, ALPH, BETA, whose stage equations on y'=lambda*y are proved (over the reals, every z with Q(z)<>0) to have the unique solution ynew = P(z)/Q(z) y with P, Q within 1e-15 of the (2,3) Pade approximant. That the code's Newton iteration has those stage equations as its fixed point is tied by the bit-exact replay and by single steps of the implementation compared with the Pade value (z down to -1e8), not by a theorem." + TIE,
           "Coq proof: rational / scaled-integer order-condition certificates (vm_compute + enumeration completeness) over constants translated from source; real-number proof of the stability function", "3/C02", True),
- "C03": C("Coq theorems (real-arithmetic semantics, any kernel / right-hand side / Jacobian / mass / callback): DOPRI5, DOP853, RK23, RK4 skeletons: accepted abscissae move strictly toward xend and never pass it, Success implies x = xend, x = xend implies Success or UserInterrupt; Radau and BDF (whole low-level solver): Success implies x = xend (Radau through the invariant that the `last` flag is cleared on every path that changes the step); event-function evaluations during root refinement stay inside the step (C08). Not theorems: monotonicity / never-past-xend for Radau and BDF, the evaluation-time clause for the right-hand side, finiteness under Success -- replay + oracles over the configuration sweep (spans 1e-12.., first_step >= span, all six methods)." + TIE,
+ "C03": C("Coq theorems (real-arithmetic semantics, any kernel / right-hand side / Jacobian / mass / callback): DOPRI5, DOP853, RK23, RK4 skeletons: accepted abscissae move strictly toward xend and never pass it, Success implies x = xend, x = xend implies Success or UserInterrupt; Radau and BDF (whole low-level solver): Success implies x = xend (Radau through the invariant that the `last` flag is cleared on every path that changes the step); BDF: every iteration and every run moves the abscissa in the direction of integration and never past xend; event-function evaluations during root refinement stay inside the step (C08). Not theorems: monotonicity / never-past-xend for Radau, the evaluation-time clause for the right-hand side, finiteness under Success -- replay + oracles over the configuration sweep (spans 1e-12.., first_step >= span, all six methods)." + TIE,
           "Coq proof of skeleton invariants over R + bit-exact correspondence", "3/C03", True),
- "C04": C("Coq theorems: on binary64 a NaN error norm fails every comparison and Rust's min/max drop NaN (Floats.FloatAxioms), rejections never enlarge the step (real semantics), a finite budget bounds the number of attempts. Float-level termination with an unlimited budget is not proved: watchdog runs on pathological problems." + TIE,
+ "C04": C("Coq theorems: on binary64 a NaN error norm fails every comparison and Rust's min/max drop NaN (Floats.FloatAxioms), rejections never enlarge the step (real semantics), a finite budget bounds the number of attempts. Float-level termination with an unlimited budget is not proved: watchdog runs on pathological problems (blow-up, discontinuous, NaN-/inf-returning right-hand sides; also combined with a min_step) plus the regression corpus." + TIE,
           "Coq proof of the termination mechanism + watchdog differential runs", "3/C04", True),
  "C05": C("Coq theorems: (any number type, any interpolant) the t_eval scan of an accepted step consumes exactly the pending requested times not beyond the step end and reports, in order, bit for bit and with the interpolant's value, those not before the step start; (reals, whole run) for any slack >= 0, any chain of accepted steps in either direction with any interpolants and any requested times sorted in the direction of integration inside the span, the initial callback plus the per-step scans report exactly the requested list -- same values, order, duplicates, nothing skipped or added -- with one state per time; the handler's `sample` is those scans. Not theorems: the terminal-event branch with t_eval, independence of dense_output (replay), and number types with rounding." + TIE + " Grid-aware placements (inside, on a boundary, +-1 ulp, +-1e-12, +-1e-9).",
           "Coq proof of the sampling loop and of the whole-run invariant + bit-exact correspondence", "3/C05", True),
@@ -36,13 +36,13 @@ CLAIMS = {
           "Coq proof of the detection pass (count invariant) and of the detection predicate + bit-exact correspondence", "3/C09", True),
  "C10": C("Coq theorems (any number type, event functions, interpolants): a terminal event makes the newest sample the event point; the handler returns Interrupt iff a terminal event fired and never without a terminal configuration; until a callback answers Interrupt the handler computes exactly the same state under the configuration with all terminal flags cleared (prefix equality with the non-terminal run; the solver's steps coincide by C12); after an Interrupt no solver makes any further step, evaluation or callback (C19, all six solvers). Not a theorem: that events of the terminal step located before the terminal one are kept and later ones dropped in floating point ties -- replay + oracle (terminal placements, several functions in one step, counts 1..3)." + TIE,
           "Coq proof (handler model: terminal branch, prefix equality) + bit-exact correspondence", "3/C10", True),
- "C11": C("Coq theorems: step-budget count (nstep <= max_steps+1; NeedLargerNMax only when the budget is used up) and budget-independence of an iteration below the budget, i.e. bit-identical prefix (DOPRI5, DOP853, RK23, Radau, BDF; any number type, kernel, callback); max_step bound with the 1% landing stretch (DOPRI5, DOP853; RK23 without stretch; real semantics, any kernel); RK4 uses exactly the given step. Not theorems: max_step / first_step for Radau and BDF, the automatic initial step." + TIE,
+ "C11": C("Coq theorems: step-budget count (nstep <= max_steps+1; NeedLargerNMax only when the budget is used up) and budget-independence of an iteration below the budget, i.e. bit-identical prefix (DOPRI5, DOP853, RK23, Radau, BDF; any number type, kernel, callback); max_step bound with the 1% landing stretch (DOPRI5, DOP853; RK23 without stretch; real semantics, any kernel); RK4 uses exactly the given step; BDF (real semantics, any right-hand side / Jacobian / callback / Newton outcome, min_step <= max_step): every iteration advances the abscissa by at most max_step. Not theorems: max_step for Radau, first_step for Radau and BDF, the automatic initial step." + TIE,
           "Coq proof of skeleton invariants (symbolic execution of each loop iteration) + bit-exact correspondence", "3/C11", True),
  "C12": C("Coq theorems: the default handler is passive unless an event is terminal; for ALL SIX solvers two passive observers (any callbacks that return Continue and leave the state alone) see literally the same solver run -- accepted steps, states, step sizes, flags, factorisations, statistics, evaluation logs, status (any number type, kernel / right-hand side / Jacobian / mass; RK23, RK4, Radau, BDF by erasure of the observer's data)." + TIE,
           "Coq proof (relational / erasure invariant over each solver loop) + bit-exact correspondence", "3/C12", False),
  "C13": C("Coq theorems: a scalar tolerance denotes the same per-component vector as the constant vector (all models read tolerances through it; any number type); (reals) the weighted RMS error norm of DOPRI5 and RK23 is unchanged by duplicating the system into m identical copies; the stage recurrence shared by all explicit methods mirrors under time reflection for any tableau -- mirrored evaluation times, identical state arguments, negated slopes -- and one DOPRI5 attempt of the reflected problem has the same new state, error vector and error norm. Not theorems: whole-run equivariance (step controller, handler), power-of-two scaling, the implicit methods, bit-identity in binary64 -- all decided by paired bit-exact runs (tolerance forms incl. mixed, reflection with events, scaling, copies)." + TIE,
           "Coq proof (tolerance representation, norm under duplication, reflection of the stage recurrence) + paired differential runs", "3/C13", True),
- "C14": C("Coq theorem (reals) about the Runge-Kutta matrix Radau effectively applies (Aeff = T Lambda^-1 TI from the regenerated constants): for every z = h*lambda <= 0 the stage equations of y'=lambda*y are uniquely solvable (Q(z) >= 1) and give ynew = R(z) y with |R(z)| <= 1, and |R(z)| <= 100/|z| + 1e-13 for |z| >= 1 -- decaying modes of any rate are damped for every step size. Not theorems: convergence of the simplified Newton iteration, BDF's stability, success/accuracy/step counts on nonlinear problems and invariants -- measured: Radau and BDF (incl. real and complex LU, Newton iterations) are replayed bit for bit on stiff linear/nonlinear problems with rates 1e2..1e10, single Radau steps are compared with the Pade value, and success, accuracy, step counts and invariants are checked on the implementation." + TIE,
+ "C14": C("Coq theorem (reals) about the Runge-Kutta matrix Radau effectively applies (Aeff = T Lambda^-1 TI from the regenerated constants): for every z = h*lambda <= 0 the stage equations of y'=lambda*y are uniquely solvable (Q(z) >= 1) and give ynew = R(z) y with |R(z)| <= 1, and |R(z)| <= 100/|z| + 1e-13 for |z| >= 1 -- decaying modes of any rate are damped for every step size; a fixed point of the transformed simplified Newton iteration (any real T, TI, eigenvalue data, h <> 0) satisfies the stage equations Z = h (T Lambda^-1 TI) G, and the matrix computed from the regenerated constants is that product. Not theorems: convergence of the simplified Newton iteration, BDF's stability, success/accuracy/step counts on nonlinear problems and invariants -- measured: Radau and BDF (incl. real and complex LU, Newton iterations) are replayed bit for bit on stiff linear/nonlinear problems with rates 1e2..1e10 (incl. an oscillatory forcing with kinks over several periods), single Radau steps are compared with the Pade value, and success, accuracy, step counts and invariants are checked on the implementation." + TIE,
           "Coq proof (stability function of the applied Radau matrix on the negative real axis) + bit-exact correspondence + stiff-problem oracles", "3/C14", True),
  "C15": C("Coq theorems: with no mass matrix the solvers read the identity whatever the mass storage; Full and Banded storage (and wider bands) holding the same entries denote the same matrix to the solvers." + TIE,
           "Coq proof (storage independence of the model's matrix reads) + bit-exact correspondence", "3/C15", True),
